@@ -747,8 +747,11 @@ func (o *ovsdbClient) update3(params []json.RawMessage, reply *[]interface{}) er
 
 	if err == nil {
 		db.monitorsMutex.Lock()
-		mon := db.monitors[cookie.ID]
-		mon.LastTransactionID = lastTransactionID
+		// the monitor may have been cancelled, or dropped with the
+		// connection, while this notification was on its way
+		if mon := db.monitors[cookie.ID]; mon != nil {
+			mon.LastTransactionID = lastTransactionID
+		}
 		db.monitorsMutex.Unlock()
 	}
 
